@@ -1,1 +1,17 @@
 import RaftLogModel.Props.C04
+open RaftLog
+#print axioms c04_wf_invariant
+#print axioms c04_covered_step
+#print axioms c04_dying_step
+#print axioms c04_covered_rotate
+#print axioms c04_covered_flush
+#print axioms c04_ack_only_from_syncNew
+#print axioms c04_ack_means_synced
+#print axioms c04_negative_after_failed_sync
+#print axioms c04_step_cbs
+#print axioms c04_cbs_in_request_order
+#print axioms c04_cb_at_most_once
+#print axioms c04_exactly_once_no_fault_measure
+#print axioms c04_exactly_once_no_fault
+#print axioms c04_wf_reachable
+#print axioms c04_covered_sys
